@@ -53,7 +53,11 @@ fn exec<T: Tbl>(ctx: &mut Ctx, ev: &Ev) {
             ctx.check("node-count", got == want, ev, &format!("len={}", models.len()), || {
                 format!("bdd_complexity gave {} expected {} for [{}]", got, want, desc())
             });
-            // metamorphic variants on the real code
+            // metamorphic variants on the real code (not in the back-to-back sequences, where the next
+            // library call has to be the next event)
+            if fam == "restacked-words" {
+                return;
+            }
             if real.len() >= 2 {
                 let mut rev = real.clone();
                 rev.reverse();
@@ -244,6 +248,39 @@ fn main() {
                     })
                     .collect();
                 both(ctx, n, "boundary-bit-neighbours", &tabs);
+            }
+            // the same words read at neighbouring sizes, back to back on one thread: a list of k functions of n
+            // variables, the 2k halves as functions of n-1 variables, the k/2 concatenations as functions of n+1
+            // variables (results that depend on what was computed just before would show here)
+            if n >= 7 {
+                let klen = *rng.pick(&[1usize, 2, 2, 4]);
+                let tabs: Vec<Vec<u64>> = (0..klen).map(|_| if rng.bool() { gen::any_fam(n, &mut rng).1 } else { gen::shannon_blocks(n, &mut rng, None) }).collect();
+                let halves: Vec<Vec<u64>> = tabs.iter().flat_map(|t| {
+                    let h = t.len() / 2;
+                    vec![t[..h].to_vec(), t[h..].to_vec()]
+                }).collect();
+                let doubles: Vec<Vec<u64>> = tabs.chunks(2).filter(|c| c.len() == 2).map(|c| [c[0].clone(), c[1].clone()].concat()).collect();
+                let mut seq: Vec<(usize, &Vec<Vec<u64>>)> = vec![(n, &tabs), (n - 1, &halves), (n, &tabs)];
+                if !doubles.is_empty() && n + 1 <= MAX_N {
+                    seq.push((n + 1, &doubles));
+                    seq.push((n, &tabs));
+                }
+                if rng.bool() {
+                    seq.reverse();
+                }
+                // one type at a time so that the calls really follow each other
+                for ty in ["Lut", "LutN"] {
+                    for (nn, l) in &seq {
+                        if ty == "LutN" && *nn > tbl::MAX_STATIC {
+                            continue;
+                        }
+                        let mut ev = Ev::new("bdd", ty, *nn).st("restacked-words");
+                        for t in l.iter() {
+                            ev = ev.tab(t);
+                        }
+                        exec_dispatch(ctx, &ev);
+                    }
+                }
             }
             // literals and complemented literals of every variable, alone and next to other functions
             for i in 0..n {
